@@ -15,9 +15,12 @@ package tlspaireng
 
 import (
 	"bytes"
+	"crypto/aes"
+	"crypto/cipher"
 	"crypto/hmac"
 	"crypto/sha256"
 	"crypto/sha512"
+	"encoding/binary"
 	"fmt"
 	"math/rand/v2"
 	"time"
@@ -31,9 +34,9 @@ import (
 func init() {
 	core.RegisterMeta("C31", core.Meta{
 		Rule: "base sessions (TLS 1.0/1.2/1.3 x suites x with/without client certificate in the ticket) from a zcrypto server with explicit ticket keys; per session every single-byte flip and every truncation of the ticket (exhaustive), extensions, zero ticket, foreign key name, foreign ticket, MAC recomputed under a foreign key (also with the foreign key installed), spliced IV/ciphertext/MAC of two tickets, cross-version tickets, " +
-			"each presented through the client's session cache (hook) and, for TLS<=1.2, through ClientFingerprintConfiguration; SetSessionTicketKeys rotation histories, legacy SessionTicketKey, automatic rotation and the 7-day lifetime driven by Config.Time, tickets disabled, suite dropped by the server. " +
+			"each presented through the client's session cache (hook) and, for TLS<=1.2, through ClientFingerprintConfiguration; SetSessionTicketKeys rotation histories, legacy SessionTicketKey, automatic rotation and the 7-day lifetime driven by Config.Time, tickets disabled, suite dropped by the server; automatic-rotation histories under clock jumps (1 h ... 15 d) that make keys expire and be pruned: genuine tickets follow the documented schedule, tickets sealed by the harness (well-formed state created \"now\") under the zero-valued key, the all-0xff key, keys derived from all-zero / all-0xff seeds, a foreign server's key and a current key name with zero material never resume, and the hook's key-name snapshot is checked after every step (no zero name, no duplicates, count within the schedule). " +
 			"non-trivial = a presentation whose ticket bytes were seen in the tapped ClientHello and whose handshake outcome was decided; distinct by (session, route, mutation) or (history, epoch, ticket)",
-		MinNontrivial:         3400,
+		MinNontrivial:         5000,
 		MinNontrivialThorough: 40000,
 		Shards:                16,
 		Assumptions: []string{
@@ -388,6 +391,279 @@ func runC31(c *core.Ctx) {
 	}
 	c31Histories(c)
 	c31Lifetimes(c)
+	c31AutoRotation(c)
+}
+
+// ---------------------------------------------------------------------------
+// harness-side ticket sealing (hostile-input construction only; the oracle never opens a ticket)
+
+func ctrXor(key [16]byte, iv, in []byte) []byte {
+	blk, err := aes.NewCipher(key[:])
+	if err != nil {
+		panic(err)
+	}
+	out := make([]byte, len(in))
+	cipher.NewCTR(blk, iv).XORKeyStream(out, in)
+	return out
+}
+
+// openTicket decrypts a ticket sealed under k (nil if the name or MAC does not match).
+func openTicket(t []byte, k ticketKeyMat) []byte {
+	if len(t) < 64 || !bytes.Equal(t[:16], k.Name[:]) {
+		return nil
+	}
+	m := hmac.New(sha256.New, k.HMAC[:])
+	m.Write(t[:len(t)-32])
+	if !hmac.Equal(m.Sum(nil), t[len(t)-32:]) {
+		return nil
+	}
+	return ctrXor(k.AES, t[16:32], t[32:len(t)-32])
+}
+
+// sealTicket seals a session state under arbitrary key material.
+func sealTicket(state []byte, k ticketKeyMat, iv []byte) []byte {
+	out := append([]byte(nil), k.Name[:]...)
+	out = append(out, iv[:16]...)
+	out = append(out, ctrXor(k.AES, iv[:16], state)...)
+	m := hmac.New(sha256.New, k.HMAC[:])
+	m.Write(out)
+	return m.Sum(out)
+}
+
+// derivedKey: the key material the library derives from a 32-byte seed.
+func derivedKey(fill byte) ticketKeyMat {
+	var k ticketKeyMat
+	for i := range k.Key {
+		k.Key[i] = fill
+	}
+	h := sha512.Sum512(k.Key[:])
+	copy(k.Name[:], h[:16])
+	copy(k.AES[:], h[16:32])
+	copy(k.HMAC[:], h[32:48])
+	return k
+}
+
+// rawKey: name, AES key and HMAC key all equal to fill (0x00 = the zero value of the key structure).
+func rawKey(fill byte) ticketKeyMat {
+	var k ticketKeyMat
+	for i := range k.Name {
+		k.Name[i], k.AES[i], k.HMAC[i] = fill, fill, fill
+	}
+	return k
+}
+
+// patchState rewrites the creation time of a plaintext session state and optionally scrambles its secret.
+func patchState(state []byte, vers uint16, created time.Time, otherSecret bool) []byte {
+	st := append([]byte(nil), state...)
+	tOff, sOff := 4, 14 // TLS<=1.2: vers(2) suite(2) createdAt(8) secret<2>
+	if vers == v13 {
+		tOff, sOff = 5, 14 // 0x0304 revision(1) suite(2) createdAt(8) secret<1>
+	}
+	if len(st) < sOff+32 {
+		return st
+	}
+	binary.BigEndian.PutUint64(st[tOff:], uint64(created.Unix()))
+	if otherSecret {
+		for i := 0; i < 32; i++ {
+			st[sOff+i] ^= byte(0x5a + i)
+		}
+	}
+	return st
+}
+
+// c31AutoRotation: automatic key rotation (no explicit keys) under clock jumps that make keys expire and be pruned;
+// genuine tickets follow the documented lifetime, harness-sealed tickets under publicly computable or foreign keys never resume,
+// and the hook's snapshot of the key list stays sane after every step.
+func c31AutoRotation(c *core.Ctx) {
+	total := c.Pick(32, 480)
+	day := 24 * time.Hour
+	hour := time.Hour
+	for h := 0; h < total; h++ {
+		if h%c.NShards != c.Shard {
+			continue
+		}
+		gr := c.GlobalRng(fmt.Sprintf("autorot:%d", h))
+		spec := c31Specs[[]int{0, 1, 4, 3}[h%4]]
+		label := fmt.Sprintf("auto%04d:%s", h, spec.Name)
+		seed := gr.Uint64() | 1
+		var offset time.Duration
+		now := func() time.Time { return tlspair.Now.Add(offset) }
+		zs := spec.serverConfig(seed, now) // no SetSessionTicketKeys, no SessionTicketKey: automatic rotation
+
+		// the attacker's session: issued by a sibling server whose key the harness knows, so its state can be re-sealed
+		own, foreign := mkTicketKey(gr), mkTicketKey(gr)
+		zk := spec.serverConfig(seed+1, fixedNow)
+		zk.SetSessionTicketKeys([][32]byte{own.Key})
+		as, _, ass, err := spec.issue(zk, seed+2)
+		if err != nil {
+			if err.Error() == "watchdog" {
+				noteWatchdog(c, "C31 "+label)
+			} else {
+				c.Violation("initial_session_failed:"+spec.Name, err.Error(), label, spec)
+			}
+			continue
+		}
+		attacker := &c31Base{Spec: spec, Seed: seed, Session: as, Ticket: ztls.VerifSessionTicket(as), Vers: ass.Version, Suite: ass.Suite}
+		plain := openTicket(attacker.Ticket, own)
+		if plain == nil {
+			c.Violation("harness:cannot_open_own_ticket", "ticket layout assumption does not hold", label, spec)
+			continue
+		}
+		hostile := []struct {
+			name string
+			key  ticketKeyMat
+		}{
+			{"forged_under_zero_value_key", rawKey(0x00)}, {"forged_under_all_ff_key", rawKey(0xff)},
+			{"forged_under_key_derived_from_zero_seed", derivedKey(0x00)}, {"forged_under_key_derived_from_ff_seed", derivedKey(0xff)},
+			{"forged_under_other_servers_key", foreign}, {"forged_under_issuing_sibling_key", own},
+		}
+
+		// clock: the fixed prefix makes a key expire and be pruned, the rest is random
+		jumps := []time.Duration{hour, 25 * hour, 6 * day, 8 * day, hour, 25 * hour}
+		pool := []time.Duration{hour, 25 * hour, 2 * day, 6 * day, 8 * day, 15 * day, 3 * hour}
+		for i := 0; i < 2+gr.IntN(3); i++ {
+			jumps = append(jumps, pool[gr.IntN(len(pool))])
+		}
+		if h%3 == 1 {
+			gr.Shuffle(len(jumps), func(i, j int) { jumps[i], jumps[j] = jumps[j], jumps[i] })
+		}
+		type genuine struct {
+			base       *c31Base
+			issuedAt   time.Duration
+			keyCreated time.Duration
+		}
+		var tickets []genuine
+		var modelKeys []time.Duration // creation times of the keys the documented schedule keeps
+		var everCreated []time.Duration
+		connect := func() { // the documented schedule, applied at every connection
+			if len(modelKeys) == 0 || offset-modelKeys[0] >= 24*hour {
+				kept := []time.Duration{offset}
+				for _, k := range modelKeys {
+					if offset-k < 7*day {
+						kept = append(kept, k)
+					}
+				}
+				modelKeys = kept
+				everCreated = append(everCreated, offset)
+			}
+		}
+		var hist []string
+		for step := 0; step <= len(jumps); step++ {
+			if step > 0 {
+				offset += jumps[step-1]
+			}
+			hist = append(hist, offset.String())
+			// 1. a genuine full handshake (triggers rotation when due) and a genuine ticket
+			connect()
+			sess, _, ss, err := spec.issue(zs, seed+uint64(100+step))
+			if err != nil {
+				if err.Error() == "watchdog" {
+					noteWatchdog(c, "C31 "+label)
+				} else {
+					c.Violation("initial_session_failed:"+spec.Name, err.Error(), label, hist)
+				}
+				break
+			}
+			nb := &c31Base{Spec: spec, Seed: seed, Server: zs, Session: sess, Ticket: ztls.VerifSessionTicket(sess), Vers: ss.Version, Suite: ss.Suite}
+			// 2. the key list after this step
+			_, names := ztls.VerifTicketKeyNames(zs)
+			c.Max("auto_keys_held", len(names))
+			bound := 0
+			for _, t := range everCreated {
+				if offset-t < 8*day { // dropped "after seven days", at the next daily rotation at the latest
+					bound++
+				}
+			}
+			seen := map[[16]byte]bool{}
+			for _, n := range names {
+				if n == [16]byte{} {
+					c.Violation("auto_ticket_keys:zero_valued_key_in_list", fmt.Sprintf("clock history %v: key names %x", hist, names), label, hist)
+				}
+				if seen[n] {
+					c.Violation("auto_ticket_keys:duplicate_key_names", fmt.Sprintf("clock history %v: key names %x", hist, names), label, hist)
+				}
+				seen[n] = true
+			}
+			if len(names) == 0 || len(names) > bound {
+				c.Violation("auto_ticket_keys:count_outside_documented_bound", fmt.Sprintf("clock history %v: %d keys held, schedule allows 1..%d", hist, len(names), bound), label, hist)
+			}
+			if !bytesEq16(nb.Ticket, names[:min(1, len(names))]) {
+				c.Violation("ticket_not_issued_under_first_current_key", fmt.Sprintf("auto rotation %v: ticket name %x, names %x", hist, nb.Ticket[:16], names), label, hist)
+			}
+			c.Eval(1)
+			// 3. earlier genuine tickets
+			first := 0
+			if len(tickets) > 6 {
+				first = len(tickets) - 6
+			}
+			for ti := first; ti < len(tickets); ti++ {
+				tk := tickets[ti]
+				var want, decided bool
+				switch {
+				case offset-tk.keyCreated < 7*day-hour:
+					want, decided = true, true
+				case offset-tk.issuedAt > 7*day+hour:
+					want, decided = false, true
+				}
+				cs, ss, onWire, to := tk.base.present(c, zs, tk.base.Ticket, "cache", seed+uint64(1000*step+ti))
+				if to {
+					noteWatchdog(c, "C31 "+label)
+					continue
+				}
+				if !decided {
+					c.Count("auto_rotation_key_past_7d_ticket_younger:resumed="+fmt.Sprint(ss.Resumed), 1)
+					continue
+				}
+				mut := "auto_rotation_genuine:expired"
+				if want {
+					mut = "auto_rotation_genuine:key_current"
+				}
+				tk.base.judge(c, fmt.Sprintf("%s/step%d(%s)/t%d(issued %s)", label, step, offset, ti, tk.issuedAt), "cache", mut, tk.base.Ticket, want, cs, ss, onWire, label, step, ti)
+			}
+			tickets = append(tickets, genuine{nb, offset, modelKeys[0]})
+			// 4. harness-sealed tickets: a well-formed state (the attacker's own session, created "now") under keys anybody can compute
+			iv := make([]byte, 16)
+			for i := range iv {
+				iv[i] = byte(gr.Uint32())
+			}
+			for hi, hk := range hostile {
+				for variant := 0; variant < 2; variant++ {
+					if variant == 1 && hi != 0 && hi != 4 {
+						continue
+					}
+					forged := sealTicket(patchState(plain, spec.Vers, now(), variant == 1), hk.key, iv)
+					mut := hk.name
+					if variant == 1 {
+						mut += "+other_secret"
+					}
+					cs, ss, onWire, to := attacker.present(c, zs, forged, "cache", seed+uint64(5000+100*step+10*hi+variant))
+					if to {
+						noteWatchdog(c, "C31 "+label)
+						continue
+					}
+					attacker.judge(c, fmt.Sprintf("%s/step%d(%s)/%s", label, step, offset, mut), "cache", mut, forged, false, cs, ss, onWire, label, step, mut)
+				}
+			}
+			// a current key name with zero key material
+			if len(names) > 0 {
+				k := rawKey(0)
+				k.Name = names[len(names)-1]
+				forged := sealTicket(patchState(plain, spec.Vers, now(), false), k, iv)
+				cs, ss, onWire, to := attacker.present(c, zs, forged, "cache", seed+uint64(9000+step))
+				if !to {
+					attacker.judge(c, fmt.Sprintf("%s/step%d(%s)/current_name_zero_material", label, step, offset), "cache", "forged_current_key_name_zero_material", forged, false, cs, ss, onWire, label, step, "curname")
+				}
+			}
+		}
+		// sanity of the forging machinery: the re-sealed state is accepted by the server that really owns the key
+		offset = 0
+		resealed := sealTicket(patchState(plain, spec.Vers, tlspair.Now, false), own, make([]byte, 16))
+		cs, ss, onWire, to := attacker.present(c, zk, resealed, "cache", seed+77)
+		if !to {
+			attacker.judge(c, label+"/resealed_under_real_key", "cache", "harness_resealed_state_under_the_servers_real_key", resealed, true, cs, ss, onWire, label, "resealed")
+		}
+		c.Count("auto_rotation_histories", 1)
+	}
 }
 
 // c31Mutations: one base session, all ticket mutations (split over the shards by mutation index).
